@@ -488,7 +488,9 @@ def pyBin (rp : Bool) (op : PyBin) (a b : PV N) : Option (PV N) :=
     | .mult => some (.float (N.mul x y))
     | .div => if N.eq y (N.ofInt 0) then none else some (.float (N.div x y))
     | .mod => if N.eq y (N.ofInt 0) then none else some (.float (N.pymod x y))
-    | .pow => some (.float (N.pow x y))
+    | .pow =>
+      -- `0.0 ** negative` raises ZeroDivisionError
+      if N.eq x (N.ofInt 0) && N.lt y (N.ofInt 0) then none else some (.float (N.pow x y))
     | _ => none
   else
     let x := a.toI; let y := b.toI
@@ -499,9 +501,11 @@ def pyBin (rp : Bool) (op : PyBin) (a b : PV N) : Option (PV N) :=
     | .div => if y = 0 then none else some (.float (N.div (N.ofInt x) (N.ofInt y)))
     | .mod => if y = 0 then none else some (.int (Int.fmod x y))
     | .pow =>
-      if rp then some (.float (N.pow (N.ofInt x) (N.ofInt y)))
+      -- `0 ** negative` raises ZeroDivisionError
+      if x = 0 ∧ y < 0 then none
+      else if rp then some (.float (N.pow (N.ofInt x) (N.ofInt y)))
       else if 0 ≤ y then some (.int (x ^ y.toNat))
-      else if x = 0 then none else some (.float (N.pow (N.ofInt x) (N.ofInt y)))
+      else some (.float (N.pow (N.ofInt x) (N.ofInt y)))
     | _ => none
 
 def pyUn (op : PyUn) (a : PV N) : Option (PV N) :=
